@@ -196,7 +196,51 @@ def bounded(tier, seed, procs):
             if want[0] == "val" and not (got[0] == "val" and got[1] == want[1]):
                 b2.fail(Failure("non-commuting", f"program={i} tree={built[1] if built[0] == 'val' else None!r}", dict(kind="mat", program=i),
                                 expected=outcome.describe(want), actual=outcome.describe(got), functions=["Product.__mul__", "Expression.__mul__"]))
+    # the smart constructors called directly: nested products (sums) in every position, operands in the order given (the documented contract of flattened_product)
+    import functools
+    shapes_ = [lambda a, b_, c, d: [mk((a, b_)), c], lambda a, b_, c, d: [a, mk((b_, c))], lambda a, b_, c, d: [a, mk((b_, c)), d], lambda a, b_, c, d: [mk((a, b_)), mk((c, d))],
+               lambda a, b_, c, d: [mk((a, mk((b_, c)))), d], lambda a, b_, c, d: [mk((mk((a, b_)), c)), d, a], lambda a, b_, c, d: [a, 1, mk((b_, 1, c)), d],
+               lambda a, b_, c, d: [mk((a, b_)), c, mk((d, a)), b_], lambda a, b_, c, d: [a, b_, c, d], lambda a, b_, c, d: [mk((a, b_, c, d))]]
+    for cname, ctor, node, fold in (("flattened_product", p.flattened_product, p.Product, operator.mul), ("flattened_sum", p.flattened_sum, p.Sum, operator.add)):
+        mk = node
+        for i, sh in enumerate(shapes_):
+            terms = sh(va, vb, vc, vd)
+            built = outcome.run(lambda: ctor(terms))
+            for env in menvs if cname == "flattened_product" else [dict(a=NC("a"), b=NC("b"), c=NC("c"), d=NC("d"))]:
+                from pymbolic.mapper.evaluator import EvaluationMapper as _EM
+                want = outcome.run(lambda: functools.reduce(fold, [_EM(env)(t) for t in terms if not (isinstance(t, int) and t == 1)]))
+                b2.case((cname, i, repr(env["a"])), nontrivial=True, sample=dict(constructor=cname, terms=repr(terms)[:120]))
+                got = outcome.run(lambda: _EM(env)(built[1])) if built[0] == "val" else built
+                if want[0] == "val" and not (got[0] == "val" and got[1] == want[1]):
+                    b2.fail(Failure("non-commuting", f"constructor={cname} terms={terms!r} tree={built[1] if built[0] == 'val' else None!r}", dict(kind="mat-ctor", constructor=cname, shape=i),
+                                    expected=outcome.describe(want)[:150], actual=outcome.describe(got)[:150], functions=[cname]))
     return [b, b2, b_constructors(tier), b_linear_combination(tier), b_registered_constants(tier)]
+
+
+class NC:
+    """Values with a non-commutative, associative + (concatenation of words) for the order of spliced sums."""
+
+    def __init__(self, w):
+        self.w = w if isinstance(w, tuple) else (w,)
+
+    def __add__(self, o):
+        if isinstance(o, int) and o == 0:
+            return self
+        return NC(self.w + o.w)
+
+    def __radd__(self, o):
+        if isinstance(o, int) and o == 0:
+            return self
+        return NC(o.w + self.w)
+
+    def __eq__(self, o):
+        return isinstance(o, NC) and self.w == o.w
+
+    def __hash__(self):
+        return hash(self.w)
+
+    def __repr__(self):
+        return "NC" + repr(self.w)
 
 
 def b_registered_constants(tier):
